@@ -395,3 +395,49 @@ VARIANTS["C06"] = [
     R("eval-prod-comprehension", LM, "        prod: float = 1.0\n        for i, deg in enumerate(joint_degree):\n            prod *= self._arr_fp[i](deg)\n        return prod",
       "        prod: float = 1.0\n        for idx in range(len(joint_degree)):\n            prod = prod * self._arr_fp[idx](joint_degree[idx])\n        return prod"),
 ]
+
+# ------------------------------------------------------------------------------------------- C07
+LS = "gcmpy/joint_degree/joint_degree_loaders/joint_degree_split_degree.py"
+LD = "gcmpy/joint_degree/joint_degree_loaders/joint_degree_delta.py"
+VARIANTS["C07"] = [
+    ME("revert-D6", [(LS, "    def create_jdd(self) -> None:\n        self._jdd = {}\n        for k in range(", "    def create_jdd(self) -> None:\n        for k in range("),
+                     (LS, "        # get a list of valid joint degrees\n        valid_tuples", "        self._jdd = {}\n\n        # get a list of valid joint degrees\n        valid_tuples")], "C07.1"),
+    M("kill-in-resolve-keeps-create", LS, "        # get a list of valid joint degrees\n        valid_tuples", "        self._jdd = {}\n        # get a list of valid joint degrees\n        valid_tuples", "C07.1"),
+    M("range-no-plus-1", LS, "range(0, remaining_degree // topology + 1)", "range(0, remaining_degree // topology)", "C07.3"),
+    M("row-reversed", LS, "yield row + [i]", "yield [i] + row", "C07.3"),
+    M("recursion-wrong-spend", LS, "remaining_degree - i * topology, topology - 1", "remaining_degree - i * (topology - 1), topology - 1", "C07.3"),
+    M("exponent-no-i-plus-1", LS, "pow(self._probs[i], (i + 1) * degree)", "pow(self._probs[i], degree)", "C07.4"),
+    M("prob-k-dropped", LS, "self._jdd[tuple(jd)] = prob_overall_k * probabilities[i]", "self._jdd[tuple(jd)] = probabilities[i]", "C07.5"),
+    M("no-per-k-normalisation", LS, "        for i in range(len(probabilities)):\n            probabilities[i] /= total\n", "", "C07.5"),
+    M("delta-last-column", LD, "zeros[0] = k", "zeros[-1] = k", "C07.7"),
+    M("delta-condition-inverted", LD, "if k != self._target_k:", "if k == self._target_k:", "C07.7"),
+    M("normalise-removed-split", LS, "            self.resolve_degree(k, self._fp(k))\n        self.normalise_jdd()", "            self.resolve_degree(k, self._fp(k))", "C07.6"),
+    M("normalise-removed-delta", LD, "        self.normalise_jdd()\n", "", "C07.6"),
+    M("fp-wrong-k", LS, "self.resolve_degree(k, self._fp(k))", "self.resolve_degree(k, self._fp(k + 1))", "C07.5"),
+    M("base-case-2", LS, "if topology == 1:", "if topology == 2:", "C07.3"),
+    M("delta-mass-one", LD, "self._jdd[tuple(zeros)] = self._fp(k)", "self._jdd[tuple(zeros)] = 1.0", "C07.7"),
+    M("normalise-inside-loop", LS, "            self.resolve_degree(k, self._fp(k))\n        self.normalise_jdd()", "            self.resolve_degree(k, self._fp(k))\n            self.normalise_jdd()", "C07.6"),
+    R("pow-to-starstar", LS, "prod *= pow(self._probs[i], (i + 1) * degree)", "prod *= self._probs[i] ** ((i + 1) * degree)"),
+    R("reset-dict-call", LS, "    def create_jdd(self) -> None:\n        self._jdd = {}", "    def create_jdd(self) -> None:\n        self._jdd = dict()"),
+    R("probabilities-comprehension", LS, "        probabilities = []\n        for jd in valid_tuples:\n            probabilities.append(self.calc_prob_of_joint_degree(jd))",
+      "        probabilities = [self.calc_prob_of_joint_degree(jd) for jd in valid_tuples]"),
+]
+
+# ------------------------------------------------------------------------------------------- C08
+LC = "gcmpy/joint_degree/joint_degree_loaders/joint_degree_cover.py"
+VARIANTS["C08"] = [
+    M("revert-D7", LC, "for i in reversed(indxs):", "for i in indxs:", "C08.3"),
+    M("revert-D8", LC, "self.convert_jds_to_jdd([tuple(jd) for jd in jds])", "self.convert_jds_to_jdd(jds)", "C08.4"),
+    M("column-is-size", LC, "jds[vertex - zero_index][clique_size - 1] += 1", "jds[vertex - zero_index][clique_size - 2] += 1", "C08.2"),
+    M("sizes-descending", LC, "sorted(list(set([len(c) for c in self._cover])))", "sorted(list(set([len(c) for c in self._cover])), reverse=True)", "C08.1"),
+    M("row-plus-offset", LC, "jds[vertex - zero_index]", "jds[vertex + zero_index]", "C08.2"),
+    M("cover-sliced", LC, "        for c in self._cover:\n            clique_size = len(c)", "        for c in self._cover[1:]:\n            clique_size = len(c)", "C08.2"),
+    M("zero-test-inverted", LC, "if not any(top)]", "if any(top)]", "C08.5"),
+    M("count-by-two", LC, "[clique_size - 1] += 1", "[clique_size - 1] += 2", "C08.2"),
+    M("sizes-unsorted", LC, "self._motif_sizes = sorted(list(set([len(c) for c in self._cover])))", "self._motif_sizes = list(set([len(c) for c in self._cover]))", "C08.1"),
+    M("members-sliced", LC, "            for vertex in c:", "            for vertex in c[1:]:", "C08.2"),
+    R("map-tuple", LC, "self.convert_jds_to_jdd([tuple(jd) for jd in jds])", "self.convert_jds_to_jdd(list(map(tuple, jds)))"),
+    R("sorted-reverse-indices", LC, "for i in reversed(indxs):", "for i in sorted(indxs, reverse=True):"),
+    R("size-inline", LC, "                jds[vertex - zero_index][clique_size - 1] += 1", "                jds[vertex - zero_index][len(c) - 1] += 1"),
+    U("rows-rebuilt", LC, "        for i in reversed(indxs):\n            for jd in jds:\n                del jd[i]\n", "        jds = [[x for i, x in enumerate(jd) if i not in indxs] for jd in jds]\n"),
+]
